@@ -2,7 +2,52 @@
 """Regenerate MANIFEST.json from the table below (keeps it valid at all times)."""
 import json
 
+TRUST = ('Trusted: rustc MIR lowering (nightly dump of the current tree), the MIR executor and its library models (validated differentially '
+         'against the native build), z3; the chain model (funds before execute, depth-first messages, rollback on error) is assumed. ')
+
 CLAIMED = {
+    'C02': dict(
+        text='Step obligations on the real provide_liquidity / withdraw_liquidity reached through the public execute entry point, from an arbitrary '
+             'funded or empty constant-product pool (reserves, LP supply, deposits, LP amounts full 128-bit symbols): mint formulas, '
+             'never-more-than-proportional, value-per-LP monotone, exact floor share on withdrawal, locked minimum liquidity. One inductive step from an '
+             'arbitrary state covers histories of any length. Stableswap value monotonicity is outside the claim (needs the Newton solver, see C19).',
+        ref='DESIGN.md §6 C02',
+        note=TRUST + 'Pre-state invariant: pool manager holds >= reserves and exactly the locked 1000 LP; LP holder owns <= supply-1000.'),
+    'C03': dict(
+        text='Constant product: perform_swap executed symbolically for all reserves, offers, tolerances and every fee configuration accepted by the real '
+             'PoolFee::is_valid (0 and 2 extra fees): stored x\'*y\' >= x*y, gross output < reserve; same-pool round trip never profitable (2 swaps, '
+             'using the product lemma proved in the same run). Stableswap D-monotonicity is outside the claim (C19).',
+        ref='DESIGN.md §6 C03',
+        note=TRUST + 'Round trips through different pools are price arbitrage and are not asserted.'),
+    'C04': dict(
+        text='The public Swap message executed through the chain model from an arbitrary constant-product pool state: reserve deltas, receiver / fee '
+             'collector / burn amounts equal floor shares of the gross output, nobody else\'s balance changes, only bank messages; receiver variants '
+             '(none, valid, invalid address). Counterexamples are replayed natively by reproducing every predicted balance and reserve.',
+        ref='DESIGN.md §6 C04',
+        note=TRUST + 'Addresses and denoms are concrete labels; amounts are symbolic.'),
+    'C09': dict(
+        text='calculate_emergency_penalty executed symbolically (amount, duration, base penalty, times full range): <= 90%, equals the capped product with '
+             'the code\'s 18-decimal floors, zero once unlocked, non-increasing in time.',
+        ref='DESIGN.md §6 C09',
+        note=TRUST + 'Handler-level split of the penalty between fee collector and farm owners is covered by the position step obligations when built.'),
+    'C10': dict(
+        text='calculate_weight executed symbolically over the full u128 x u64 domain: amount <= weight <= 16*amount inside [1 day, 1 year], InvalidWeight outside, '
+             'monotone in amount and in duration (relational: two executions compared).',
+        ref='DESIGN.md §6 C10',
+        note=TRUST + 'The total-vs-sum invariant over histories is a separate (bounded-history) obligation.'),
+    'C12': dict(
+        text='Relational obligations: Simulation vs Swap on the same symbolic constant-product state (all amounts equal on every accepted path); '
+             'SimulateSwapOperations vs ExecuteSwapOperations over a 2-hop route with the pricing kernel as an uninterpreted function (glue only); '
+             'reverse quote + 1 unit suffices (zero fees: full range; with fees: three fixed fee configurations, ask < 1e18 while the recorded precision '
+             'finding is open).',
+        ref='DESIGN.md §6 C12',
+        note=TRUST + 'Paths where the forward swap of the quote is itself refused are outside the reverse-quote obligation.'),
+    'C13': dict(
+        text='assert_max_slippage and assert_slippage_tolerance executed symbolically: accepted iff the documented predicate holds (default 1%, cap 50%, '
+             'belief price, zero price refused), monotone in the tolerance (relational), proportional deposits accepted under every valid tolerance, '
+             'tolerance > 1 refused.',
+        ref='DESIGN.md §6 C13',
+        note=TRUST + 'Stableswap deposit tolerance and mixed-decimals slippage units are tracked as findings (see DESIGN.md).'),
     'C18': dict(
         text='Bounded symbolic execution of the real MIR of query_current_epoch / query_epoch with genesis, duration, block time and epoch id as '
              'unconstrained 64-bit symbols; every feasible path is decided by z3 (unsat of pre ∧ path ∧ ¬post). Full u64 ranges, no loop, so the only '
